@@ -440,7 +440,14 @@ def dim_txt(shape, R):
 
 def rand_comment(R, allow=''):
     n = R.randint(0, 18)
-    return ''.join(R.choice(COMMENT_ALPHA + allow * 4) for _ in range(n)).replace('"""', '"')
+    return no_triple(''.join(R.choice(COMMENT_ALPHA + allow * 4) for _ in range(n)))
+
+
+def no_triple(c):
+    """comments never contain a run of double quotes (three of them would open a block)"""
+    while '""' in c:
+        c = c.replace('""', '"')
+    return c
 
 
 class Renderer:
@@ -490,6 +497,7 @@ class Renderer:
             c = rand_comment(R, allow)
             for q in avoid:
                 c = c.replace(q, '')
+            c = no_triple(c)
             if allow and any(q in c for q in allow):
                 self.classes.add('comment-with-quote-char')
             return ' ' * R.randint(minblank, 3) + '#' + c
